@@ -2,6 +2,7 @@ SPECIFICATION MCSpec
 CONSTANTS
   Proc = {"s1", "s2"}
   CloneSeq <- Clones2
+  MaxCancels = 1
   Defect_CheckThenClone = FALSE
   Defect_UnlockedJoin = FALSE
   Defect_SplitDrop = FALSE
